@@ -2,9 +2,9 @@
 # usage: refcheck.sh <patch.diff> : applies a (supposedly behaviour-preserving) patch to /repo, runs all quick checks, restores /repo.
 # prints the checks that do not exit 0.
 set -u
-cd /verif
+P=$(realpath "$1"); cd /verif
 if [ -n "$(git -C /repo status --porcelain)" ]; then echo "refusing: /repo not clean"; exit 2; fi
-git -C /repo apply "$1" || { echo "patch does not apply"; exit 2; }
+git -C /repo apply "$P" || { echo "patch does not apply"; exit 2; }
 bad=0
 for i in $(seq -w 1 20); do
   out=$(./check C$i --tier quick 2>&1); rc=$?
